@@ -37,8 +37,11 @@ ASSUMPTIONS = [
 COMPONENTS = {"real": ["forcefield_helper readers, SMARTS matching, cache, MolGen.get_forcefield_types"],
               "stub": ["file system (simulated layer serving the bundled files)", "3-D embedding"]}
 
-FF_UNITS = ["{0}CC{1}", "{0}CC({1})C", "{0}CC({1})c1ccccc1", "{0}CCO{1}", "{0}CC({1})C(=O)OC", "{0}COC{1}", "{0}C(C)C{1}", "{0}CC({1})O"]
-FF_ENDS = ["[H]", "C", "O", "CC", "OC", "c1ccccc1", "C(C)(C)C", "F"]
+FF_UNITS = ["{0}CC{1}", "{0}CC({1})C", "{0}CC({1})c1ccccc1", "{0}CCO{1}", "{0}CC({1})C(=O)OC", "{0}COC{1}", "{0}C(C)C{1}", "{0}CC({1})O",
+            "{0}CC({1})C#N", "{0}CC(Cl){1}", "{0}CC({1})C(=O)N", "{0}CC({1})C(=O)O", "{0}CC({1})OC(=O)C", "{0}NCC{1}", "{0}CC(F){1}", "{0}CC({1})Br",
+            "{0}CSC{1}", "{0}C=C{1}"]
+FF_ENDS = ["[H]", "C", "O", "CC", "OC", "c1ccccc1", "C(C)(C)C", "F", "N", "Cl", "Br", "C#N", "C(=O)O", "S"]
+FF_PREFIX = ["[H]", "C", "O", "CC", "CO", "c1ccccc1", "C(C)(C)C", "F", "N", "Cl", "Br", "N#CC", "OC(=O)C", "S"]
 CALLS = ["default", "default_explicit_none", "copies", "copies", "rules_copy_only", "params_copy_only", "renumbered", "partial",
          "other_copies", "alt_params", "alt_params"]
 
@@ -54,7 +57,8 @@ def ff_molecule(rnd):
     T = rnd.choice([40, 80, 150])
     dist = rnd.choice([f"|gauss({T}, {T // 4})|", f"|uniform({T // 2}, {T})|", f"|poisson({T})|"])
     if rnd.random() < 0.5:
-        return rnd.choice(FF_ENDS) + "{[>]" + ut + "[<]}" + dist + rnd.choice(FF_ENDS)
+        # a prefix is attached through its LAST written atom, a suffix / end group through its first
+        return rnd.choice(FF_PREFIX) + "{[>]" + ut + "[<]}" + dist + rnd.choice(FF_ENDS)
     return "{[]" + ut + "; [<]" + rnd.choice(FF_ENDS) + ", [>]" + rnd.choice(FF_ENDS) + "[]}" + dist
 
 
